@@ -45,6 +45,9 @@ CHECKS = {
  "C13": dict(engine="vsim+files", technique="runtime monitoring: byte scanner over every file of the database directory (after every step and inside explicit transactions via tick hook) for a registry of secrets learnt during SQLCipher-backed histories, with an unencrypted positive control; constructor expectation matrix; barrier-synchronised concurrent first opens; PRAGMA observation through hook H3",
    text="Exploration: on N histories on an encrypted client no registered secret (canary message bodies incl. 20-50 KB ones, group name, MLS group id, nostr ids, exporter secrets, image key/nonce, database key) appears in any file in raw or hex form at any scan point, while the same scanner finds every class in an unencrypted control; constructors behave per the expectation table on plain / encrypted(k1,k2,keyring) / missing files, a refused open damages nothing, re-opening with the right key yields the same fingerprint; files are 0600 and created directories 0700; concurrent first opens end with one keyring key under which every successful opener's rows are visible.",
    note="A temp-file spill is not provoked (temp_store=MEMORY is observed through H3); the keyring is keyring-core's mock store; opens that lose the schema-migration race are information, not judged.", ref="5/C13"),
+ "C14": dict(engine="vsim+capture", technique="runtime monitoring: tracing subscriber capturing every event of every level plus Display/Debug renderings of every error and processing result during a tour over all other workloads; offline scan against a registry of secrets learnt in the same scenario",
+   text="Exploration: on N scenarios taken from the generators of C01-C07, C12, C13, C16 and the uniffi probes, every log record of an mdk_* target and every Display / Debug / alternate-Debug rendering of an Err or MessageProcessingResult is searched for the MLS group id, every nostr group id in force, exporter secrets, image key / nonce / upload seed and database keys in lower/upper hex, decimal byte-list and 8-byte window forms; Debug of the secret-holding configuration types is probed directly.",
+   note="Dependencies that log through the `log` facade (openmls) are not captured by a tracing subscriber and are outside the statement (targets of the mdk crates); data carriers (Group, Welcome, UpdateGroupResult, GroupExporterSecret's group id) are not logs or errors.", ref="5/C14"),
  "C16": dict(engine="vsim+adversary", technique="runtime monitoring: invitation workload (valid welcome re-processed under same/fresh wrapper ids in every welcome state, accept/decline, forged welcomes built with OpenMLS by member/inviter/outsider) with before/after fingerprints of every group, stored-welcome comparison, joiner-vs-inviter state comparison and liveness probes of the existing group",
    text="Exploration: on N invitation sequences: re-processing returns the same stored welcome and changes nothing; no group is Active without accept_welcome; after accept the joiner's MLS state, members, group data, relays and mirrored record equal the inviter's post-commit state with self-update Required; no invitation changes an Active group's fingerprint and that group still processes its next message and commit; a stored welcome is never replaced.",
    note="wrapper_event_id of the stored welcome is not compared across wrapper ids; forged welcomes come from a throw-away OpenMLS group (MlsGroup::new_with_group_id) with hand-encoded group-data extension bytes.", ref="5/C16"),
